@@ -674,3 +674,24 @@ add('C14', 'save-flags-read-under-a-key-the-loader-never-writes', CSF,
     "        self.save_config.set('rule_info', 'skip_case', str(self.pcfg.ruleset_info.get('skip_case', False)))\n        self.save_config.set('guessing_info', 'mode', self.mode)", 'fire', 'C14.R24')
 add('C08', 'parent-priced-without-the-base-probability', PGF, "            new_parent_prob = self._find_prob(new_parent, pt_item['base_prob'])",
     "            new_parent_prob = self._find_prob(new_parent, 1.0) if False else self._find_prob(new_parent)", 'fire')
+
+# ---- round 14 -------------------------------------------------------------------------------------------------------------------
+LEAF14 = "                    num_guesses += 1\n                    self.print_guess(new_guess)\n\n                    # Check the limit\n                    if limit:\n                        limit = limit - 1\n                        if limit == 0:\n                            return num_guesses\n"
+add('C04', 'count-behind-the-limit-check', PGF, LEAF14,
+    "                    self.print_guess(new_guess)\n\n                    # Check the limit\n                    if limit:\n                        limit = limit - 1\n                        if limit == 0:\n                            return num_guesses\n                    num_guesses += 1\n", 'fire', 'C04.R4')
+add('C04', 'count-right-after-the-write', PGF, LEAF14,
+    "                    self.print_guess(new_guess)\n                    num_guesses += 1\n\n                    # Check the limit\n                    if limit:\n                        limit = limit - 1\n                        if limit == 0:\n                            return num_guesses\n", 'silent')
+add('C06', 'recursive-walks-merged-only-with-a-layout', KBF13, "                        if temp_found:\n", "                        if temp_detected_keyboards:\n", 'fire', 'C06.R24')
+add('C06', 'recursive-walks-merged-unconditionally', KBF13, "                        if temp_found:\n                            found_list.extend(temp_found)\n", "                        found_list.extend(temp_found)\n", 'silent')
+SGIO14 = 'lib_scorer/grammar_io.py'
+add('C07', 'scorer-drops-probability-one', SGIO14, "                grammar_counter[split_values[0]] = float(split_values[1])",
+    "                prob = float(split_values[1])\n                if not 0.0 < prob < 1.0:\n                    continue\n                grammar_counter[split_values[0]] = prob", 'fire', 'C07.R28')
+add('C07', 'scorer-probability-in-a-local', SGIO14, "                grammar_counter[split_values[0]] = float(split_values[1])",
+    "                prob = float(split_values[1])\n                grammar_counter[split_values[0]] = prob", 'silent')
+add('C01', 'terminal-probability-clamped-on-load', GIO, "                    prob = float(split_values[1])\n", "                    prob = max(float(split_values[1]), sys.float_info.epsilon)\n", 'fire', 'C01.R21')
+ODF14 = 'lib_trainer/detection_rules/other_detection.py'
+add('C03', 'blank-other-section-labelled-not-counted', ODF14, "            other_list.append(section_list[index][0])", "            if section_list[index][0].strip():\n                other_list.append(section_list[index][0])", 'fire', 'C03.R22')
+add('C05', 'blank-leftover-stays-untyped', ODF14, "        if section_list[index][1] is None:", "        if section_list[index][1] is None and section_list[index][0].strip():", 'fire', 'C05.R5')
+add('C03', 'other-section-value-in-a-local', ODF14,
+    "            section_list[index] = (section_list[index][0],'O' + str(len(section_list[index][0])) )\n            other_list.append(section_list[index][0])",
+    "            other_string = section_list[index][0]\n            section_list[index] = (other_string, 'O' + str(len(other_string)))\n            other_list.append(other_string)", 'silent')
